@@ -29,16 +29,37 @@ fn widen(e: Infallible) -> i64 {
 
 type Log = Arc<Mutex<Vec<String>>>;
 
+/// event `emitj`: what subscriber `.0` does from inside its `next` callback (taken by the first call)
+type Join = Arc<Mutex<Option<(usize, Cheat)>>>;
+
+/// A closure of the case's OWN thread kept where the thread-safe flavour wants `Send` (the probe): every case of this
+/// suite runs on one thread, the closure never crosses to another.
+struct Cheat(Box<dyn FnOnce()>);
+unsafe impl Send for Cheat {}
+impl Cheat {
+  fn run(self) {
+    (self.0)()
+  }
+}
+
 struct Probe {
   k: usize,
   log: Log,
   /// event `subfin`: an observer that reports finished from the start (and logs nothing)
   fin: bool,
+  join: Join,
 }
 impl Observer<Val, i64> for Probe {
   fn next(&mut self, v: Val) {
     if !self.fin {
       self.log.lock().unwrap().push(format!("{}:{}", self.k, Notif::Next(v)));
+      let mine = {
+        let mut j = self.join.lock().unwrap();
+        if j.as_ref().map_or(false, |(k, _)| *k == self.k) { j.take() } else { None }
+      };
+      if let Some((_, f)) = mine {
+        f.run()
+      }
     }
   }
   fn error(self, e: i64) {
@@ -104,7 +125,8 @@ macro_rules! impl_share_run {
       } else {
         shared = Some(pipeline.$share());
       }
-      let mut handles: Vec<Option<Box<dyn FnOnce()>>> = vec![None, None, None];
+      let handles: Arc<Mutex<Vec<Option<Cheat>>>> = Arc::new(Mutex::new(vec![None, None, None]));
+      let join: Join = Arc::new(Mutex::new(None));
       let drain = |log: &Log| {
         format!(
           "d={} s={} t={}",
@@ -118,21 +140,49 @@ macro_rules! impl_share_run {
         match ev[0].atom() {
           "sub" | "subfin" => {
             let i = ev[1].nat();
-            let probe = Probe { k: i, log: log.clone(), fin: ev[0].atom() == "subfin" };
-            let h: Box<dyn FnOnce()> = if let Some(s) = &shared {
+            let probe = Probe { k: i, log: log.clone(), fin: ev[0].atom() == "subfin", join: join.clone() };
+            let h: Cheat = if let Some(s) = &shared {
               let u = s.clone().actual_subscribe(probe);
-              Box::new(move || u.unsubscribe())
+              Cheat(Box::new(move || u.unsubscribe()))
             } else {
               let u = fork.as_ref().unwrap().clone().actual_subscribe(probe);
-              Box::new(move || u.unsubscribe())
+              Cheat(Box::new(move || u.unsubscribe()))
             };
-            handles[i] = Some(h);
+            handles.lock().unwrap()[i] = Some(h);
             out.emit(k, drain(&log));
           }
           "unsub" => {
-            if let Some(h) = handles[ev[1].nat()].take() {
-              h();
+            let h = handles.lock().unwrap()[ev[1].nat()].take();
+            if let Some(h) = h {
+              h.run();
             }
+            out.emit(k, drain(&log));
+          }
+          "emitj" => {
+            // emit <notif>; from inside subscriber k's callback for it, subscriber j joins the shared observable
+            let (lk, lj) = (ev[3].nat(), ev[4].nat());
+            let (log2, join2, handles2) = (log.clone(), join.clone(), handles.clone());
+            let target: Cheat = if let Some(s) = &shared {
+              let s = s.clone();
+              Cheat(Box::new(move || {
+                let u = s.actual_subscribe(Probe { k: lj, log: log2, fin: false, join: join2 });
+                handles2.lock().unwrap()[lj] = Some(Cheat(Box::new(move || u.unsubscribe())));
+              }))
+            } else {
+              let f = fork.as_ref().unwrap().clone();
+              Cheat(Box::new(move || {
+                let u = f.actual_subscribe(Probe { k: lj, log: log2, fin: false, join: join2 });
+                handles2.lock().unwrap()[lj] = Some(Cheat(Box::new(move || u.unsubscribe())));
+              }))
+            };
+            *join.lock().unwrap() = Some((lk, target));
+            let mut s = hot.clone();
+            match Notif::parse(&ev[2]) {
+              Notif::Next(v) => s.next(v),
+              Notif::Error(e) => s.error(e),
+              Notif::Complete => s.complete(),
+            }
+            let _unused = join.lock().unwrap().take();
             out.emit(k, drain(&log));
           }
           "emit" => {
